@@ -884,6 +884,10 @@ func (w *_assemblerRepr) AssignString(s string) error {
 		}
 		members := w.schemaType.(*schema.TypeEnum).Members()
 		for _, member := range members {
+			if _, renamed := stg[member]; renamed {
+				// This member is represented by another string, not by its name.
+				continue
+			}
 			if s == member {
 				return (*_assembler)(w).AssignString(member)
 			}
